@@ -33,6 +33,7 @@ from __future__ import annotations
 
 import asyncio
 import concurrent.futures
+import enum
 import math
 
 from . import env as E
@@ -74,6 +75,14 @@ KL = {
     "A": ErrorClass.AUTH,
     "F": ErrorClass.PERMISSION,
 }
+
+
+class AppClass(enum.Enum):
+    """An application's own failure taxonomy (not an ErrorClass member)."""
+    THROTTLED = "throttled"
+
+
+KL["Z"] = AppClass.THROTTLED
 LK = {v: k for k, v in KL.items()}
 NONRETRY = ("P", "A", "F")
 # default_classifier(exc) == stub label, for entry points that have no classifier to configure
@@ -92,6 +101,8 @@ FAULT_TYPES = {
     "ValueError": ValueError,
     "KeyError": KeyError,
     "TypeError": TypeError,
+    "HybridCancelled": lambda: HybridCancelled(),
+    "HybridExit": lambda: HybridExit(),
     "AttributeError": AttributeError,
     "OSError": OSError,
     "AssertionError": AssertionError,
@@ -127,6 +138,26 @@ def _step_in_thread(coro):
     if kind == "exc":
         raise val
     return val
+
+
+class RootCauseError(OpError):
+    """The low-level error another one is raised from."""
+
+
+class FrozenOpError(OpError):
+    """An exception instance that refuses attribute assignment (like a frozen dataclass)."""
+
+    def __init__(self, msg, spec, status):
+        super().__init__(msg)
+        object.__setattr__(self, "spec", spec)
+        if status is not None:
+            object.__setattr__(self, "status", status)
+        object.__setattr__(self, "_frozen", True)
+
+    def __setattr__(self, name, value):
+        if getattr(self, "_frozen", False) and not name.startswith("__"):
+            raise AttributeError(f"cannot assign to field {name!r}")
+        object.__setattr__(self, name, value)
 
 
 class OpFuturesCancelled(OpError, concurrent.futures.CancelledError):
@@ -202,7 +233,7 @@ _RAISE_CODE = _raise_here.__code__
 def klass_name(k):
     if k is None:
         return None
-    if isinstance(k, ErrorClass):
+    if isinstance(k, (ErrorClass, AppClass)):
         return LK[k]
     return repr(k)
 
@@ -230,6 +261,8 @@ STRAT_SPECIAL = {"nan": math.nan, "inf": math.inf, "-inf": -math.inf}
 
 
 def strat_value(a):
+    if isinstance(a, str) and a.startswith("int:"):
+        return int(a[4:])            # an integer number of *seconds* (not a float)
     if isinstance(a, str):
         return STRAT_SPECIAL[a]
     return a * TAU
@@ -287,6 +320,8 @@ DEFAULT_CFG = {
     "strat_obj": False,
     "rec_durs": [0],             # ticks spent inside the strategy object's record_failure (menu)
     "abort_kind": "method",      # "falsy-object": abort_if is a callable object whose bool() is False
+    "classifier_kind": "method",  # "falsy": the classifier is a callable rule table with len() == 0
+    "global_rng": False,         # library strategies draw from the process-global random stream
     "abort_truthy": False,       # abort_if answers 7 (truthy, but not the literal True) when it aborts
     "strat_falsy": False,        # context-style strategies are callable objects whose bool() is False
     "inject_start": False,       # async, hand-driven: the coroutine may be closed before its first step
@@ -325,6 +360,10 @@ class World:
         self.clock = E.Clock()
         self.clock.frac = cfg.get("frac", 0.0)
         E.set_clock(self.clock)
+        if cfg["global_rng"]:
+            import random as _stdlib_random
+            _stdlib_random.seed(20260927)   # same stream for the silent and the faulty run
+            self.clock.global_rng = True
         self.trace = []
         self.objs = []
         self.oid = {}
@@ -454,6 +493,8 @@ class World:
                     CircuitBreaker.allow(self.breaker)
                 elif step[0] == "cancel":
                     CircuitBreaker.record_cancel(self.breaker)
+                elif step[0] == "success":
+                    CircuitBreaker.record_success(self.breaker)
 
     def make_breaker(self, br):
         world = self
@@ -565,6 +606,21 @@ class World:
             a = menu[world.ch.choose("strat", len(menu), free)] if len(menu) > 1 else menu[0]
             return a, strat_value(a)
 
+        if style == "libjitter":
+            # one of the library's own jittered strategies, observed from outside
+            import redress.strategies as _S
+            lib = _S.decorrelated_jitter(base_s=TAU, max_s=8 * TAU)
+
+            def strat_lib(ctx):
+                world.fault("strategy")
+                cl = ctx.classification
+                v = lib(ctx.attempt, cl.klass, ctx.prev_sleep_s)
+                world.trace.append((
+                    "strategy", name, "ctx", ctx.attempt, klass_name(cl.klass),
+                    ticks(cl.retry_after_s), ticks(ctx.prev_sleep_s), ticks(ctx.remaining_s),
+                    ctx.cause, None, repr(round(v, 9))))
+                return v
+            return strat_lib
         if style == "ctx+opt":
             # context-style strategy with optional extra positional parameters
             def strat_ctx_opt(ctx, scale=1.0, cap=None):
@@ -785,6 +841,19 @@ class World:
             ids.add(id(obj))
             self._cb_keep.append(obj)
             return obj
+        if self.cfg["callable_kind"] == "clocklike":
+            world = self
+
+            class FakeClock:
+                """A callable that *also* has a helper method called sleep()."""
+
+                def __call__(self, *a, **kw):
+                    return fn(*a, **kw)
+
+                def sleep(self, *a, **kw):
+                    world.trace.append(("wrong_entry", "the object's .sleep attribute was called "
+                                                       "instead of the callable itself"))
+            return FakeClock()
         if self.cfg["callable_kind"] != "falsy":
             return fn
 
@@ -904,11 +973,15 @@ class World:
                 raise CircuitOpenError("open")
             except CircuitOpenError:
                 _raise_here(exc)
+        if kind == "xi":
+            exc = FrozenOpError(f"op{n}:{rest}", (rest, None), STATUS_FOR.get(rest))
+            self._rec_op(("op", n, "x:" + rest, t0, t1, self.reg(exc)))
+            _raise_here(exc)
         if kind == "xq":
             # raise X from Y: the classifier calls X `rest`, the cause would be TRANSIENT
             exc = OpError(f"op{n}:{rest}")
             exc.spec = (rest, None)
-            cause = OpError("root cause")
+            cause = RootCauseError("root cause")
             cause.spec = ("T", None)
             cause.status = STATUS_FOR.get("T")
             self._rec_op(("op", n, "x:" + rest, t0, t1, self.reg(exc)))
@@ -1026,6 +1099,15 @@ class World:
         elif st.get("per_empty"):
             kw["strategies"] = {}
         kw["classifier"] = self.classifier
+        if cfg["classifier_kind"] == "falsy":
+            world = self
+
+            class RuleTable(dict):
+                """An (empty) rule table that is itself the classifier."""
+
+                def __call__(self, exc):
+                    return world.classifier(exc)
+            kw["classifier"] = RuleTable()
         if any(a.startswith("r:") for a in cfg["alphabet"]) or cfg["force_rc"]:
             kw["result_classifier"] = self.result_classifier
         kw["deadline_s"] = INF_DEADLINE if cfg["deadline"] is None else cfg["deadline"] * TAU
